@@ -62,7 +62,28 @@ def new_shaper(inp, cfg):
     kw = shaper_kwargs(cfg)
     if "endpoint" in inp:
         return Shaper(url_endpoint=inp["endpoint"], **kw)
+    if "file" in inp:
+        return Shaper(graph_file_input=inp["file"], input_format=inp["format"], **kw)
     return Shaper(raw_graph=inp["text"], input_format=inp["format"], **kw)
+
+
+@contextlib.contextmanager
+def input_file(inp):
+    """inp with "as_file": the text is written to a temporary file for the duration of the block ({"format", "file"}); otherwise inp itself."""
+    if not inp.get("as_file"):
+        yield inp
+        return
+    import tempfile
+    fd, path = tempfile.mkstemp(prefix="verif_schemas_", suffix="." + inp["format"])
+    try:
+        with os.fdopen(fd, "w") as fh:
+            fh.write(inp["text"])
+        yield {"format": inp["format"], "file": path, "text": inp["text"]}
+    finally:
+        try:
+            os.remove(path)
+        except OSError:
+            pass
 
 
 def _shex(shaper, fmt=SHEXC, t=0):
